@@ -185,6 +185,14 @@ PROPS = {
         assumptions=COMMON_ASSUME + ["with several violated rules any of them may be reported (with its own first index)"],
         targets=[enum("enum", ["props/C04_enum.cpp"], qs=12, ts=16)],
     ),
+    "C05": dict(
+        level="exploration",
+        exhaustive_possible=False,
+        rule="cases are operation histories (up to 400 steps) on generated tables, executed step by step against the flat model; non-trivial = a history that contains a refused operation "
+             "after at least one accepted block write, or a corrupt..sanitise pair that resets at least one register and keeps at least one; distinct by the serialised history",
+        assumptions=COMMON_ASSUME + ["all areas of the generated tables load defaults (so the invariant holds initially); tables with always-fail registers get no sanitise/corrupt steps (the property's restriction)"],
+        targets=[rc("rc", ["props/C05_rc.cpp"], 600, 20000, qs=8, ts=16, max_size=100)],
+    ),
 }
 
 NOTE_COMMON = ("trusted: clang/ASan/UBSan, the harness and its reference model; the search is bounded (see evidence: tier bounds and counts); "
@@ -308,6 +316,14 @@ MANIFEST_TEXT = {
         level_text="Half of the descriptions are valid tables perturbed in exactly one rule by exactly one step (off-by-one at area ends for every register size, overlap by one word, swapped "
                    "neighbours, defaults pushed across their bound), a quarter are valid tables, a quarter come from a small raw grid; the model computes the set of violated rules, and after "
                    "success the storage image, the per-area register runs and typed access are compared. Sampling, not the full cross product (which is 99.9% first-rule failures).",
+        level_note=NOTE_COMMON,
+    ),
+    "C05": dict(
+        engine="rapidcheck (stateful)",
+        technique="rapidcheck stateful/model-based testing: generated operation histories with shrinking, flat reference model, invariant evaluated on the implementation's storage after every step",
+        level_text="Random histories of checked operations with operands biased to constraint bounds run against the real table and the flat model in lock step; equality of all storage "
+                   "and touched marks, no change on refusal, and the constraint invariant are asserted after every step, and sanitise is checked after arbitrary out-of-band corruption. "
+                   "Failing histories shrink by deleting operations.",
         level_note=NOTE_COMMON,
     ),
 }
